@@ -74,6 +74,16 @@ Lemma chunks_length d psz : length (chunks_of d psz) = N.to_nat ((N.of_nat (leng
 Proof. unfold chunks_of. cbv zeta. rewrite map_length, seq_length. reflexivity. Qed.
 
 
+Lemma chunk_len d psz c : In c (chunks_of d psz) -> (N.of_nat (length c) <= psz)%N.
+Proof.
+  unfold chunks_of. cbv zeta. intros Hin. apply in_map_iff in Hin. destruct Hin as [i [Ec _]]. subst c.
+  unfold slice. rewrite firstn_length.
+  rewrite N.mul_add_distr_r, N.mul_1_l.
+  set (X := (N.of_nat i * psz)%N). set (len := N.of_nat (length d)).
+  assert (N.to_nat (N.min len (X + psz)) - N.to_nat X <= N.to_nat psz) by lia.
+  lia.
+Qed.
+
 Section PartSet.
   Variable H : bytes -> bytes.
 
@@ -148,6 +158,34 @@ Section PartSet.
     destruct (trails_spec H items) as [T1 [T2 _]].
     split; [discriminate|]. split; [exact T1|]. rewrite number_proofs_length. exact T2.
   Qed.
+
+  Definition trail_ok (t : bytes * list bytes) : Prop :=
+    length (fst t) = 32 /\ Forall (fun a : bytes => length a = 32) (snd t).
+
+  Lemma trails_lens : forall items, Forall trail_ok (fst (trails H items)).
+  Proof.
+    apply (items_ind (fun items => Forall trail_ok (fst (trails H items)))).
+    - constructor.
+    - intros x. constructor; [|constructor]. split; [apply H_len|constructor].
+    - intros items Hl IL IR.
+      pose proof (splitk_bounds (length items) Hl) as Hk.
+      rewrite (trails_unfold H items Hl). cbv zeta. cbn [fst].
+      destruct (trails_spec H (firstn (splitk (length items)) items)) as [TL _].
+      destruct (trails_spec H (skipn (splitk (length items)) items)) as [TR _].
+      assert (HLn : firstn (splitk (length items)) items <> []).
+      { intros E. apply (f_equal (@length bytes)) in E. rewrite firstn_length in E. simpl in E. lia. }
+      assert (HRn : skipn (splitk (length items)) items <> []).
+      { intros E. apply (f_equal (@length bytes)) in E. rewrite skipn_length in E. simpl in E. lia. }
+      apply Forall_app. split; apply Forall_map.
+      + eapply Forall_impl; [|exact IL]. intros t [A B]. split; [exact A|]. cbn [snd].
+        apply Forall_app. split; [exact B|]. constructor; [|constructor]. rewrite TR. apply root_len; auto.
+      + eapply Forall_impl; [|exact IR]. intros t [A B]. split; [exact A|]. cbn [snd].
+        apply Forall_app. split; [exact B|]. constructor; [|constructor]. rewrite TL. apply root_len; auto.
+  Qed.
+
+  Lemma forallb_len32 (l : list bytes) : Forall (fun a : bytes => length a = 32) l ->
+    forallb (fun a => Nat.eqb (length a) 32) l = true.
+  Proof. induction 1 as [|a l Ha _ IH]; [reflexivity|]. cbn [forallb]. rewrite Ha, IH. reflexivity. Qed.
 
   (* ---------------------------------------------------------------- the setting *)
 
@@ -485,6 +523,32 @@ Section PartSet.
     intros i Hi. destruct (genuine_exists i Hi) as [g [Hg Hidx]].
     pose proof (add_all_delivers ops s0 g InvS_s0 Hg (Hall g Hg)) as Hf.
     rewrite Hidx, Nat2N.id in Hf. exact Hf.
+  Qed.
+
+  (* ---------------------------------------------------------------- genuine parts on the wire *)
+
+  (** every part produced by NewPartSetFromData with a part size within the limit passes the checks
+      PartFromProto applies on the wire, in the WAL and in the block store *)
+  Lemma genuine_passes_wire max g : (psz <= max)%N -> genuine g ->
+    part_from_proto max (pt_index g) (pt_bytes g) (pt_proof g) = WOk.
+  Proof.
+    intros Hmax Hg.
+    destruct full_facts as [_ [_ [_ [_ [_ [_ [_ [prs [Hp [Hparts Hpl]]]]]]]]]].
+    unfold genuine in Hg. rewrite Hparts in Hg.
+    destruct (in_mk_parts _ _ _ _ Hg) as [i [Hc [Hpr _]]].
+    unfold proofs_from in Hp. fold chunks in Hc.
+    destruct chunks as [|c0 cs] eqn:Ech; [destruct i; discriminate|]. rewrite <- Ech in *.
+    assert (Eprs : prs = number_proofs (N.of_nat (length chunks)) 0 (fst (trails H chunks))).
+    { rewrite Ech in Hp. cbv beta iota in Hp. rewrite <- Ech in Hp. inversion Hp. reflexivity. }
+    rewrite Eprs, nth_number_proofs in Hpr.
+    destruct (nth_error (fst (trails H chunks)) i) as [t|] eqn:Et; [|discriminate].
+    inversion Hpr as [Epr].
+    pose proof (trails_lens chunks) as TL. rewrite Forall_forall in TL.
+    destruct (TL t (nth_error_In _ _ Et)) as [A B].
+    unfold part_from_proto, proof_validate_basic, part_validate_basic. try rewrite <- Epr. cbn [p_leaf p_aunts].
+    rewrite A, (forallb_len32 _ B). cbn [Nat.eqb andb negb].
+    pose proof (chunk_len data psz (pt_bytes g) (nth_error_In _ _ Hc)) as Hlen.
+    destruct (N.leb_spec (N.of_nat (length (pt_bytes g))) max); [reflexivity|lia].
   Qed.
 
   (* ---------------------------------------------------------------- the property lemmas *)
